@@ -4,6 +4,7 @@ package govc
 
 import (
 	"fmt"
+	"os"
 	"go/constant"
 	"go/token"
 	"go/types"
@@ -55,6 +56,7 @@ type Obligation struct {
 	Model   map[string]string
 	Output  string
 	Folded  bool
+	Env     *SpecEnv // environment the goal was evaluated in (for known-finding input classes)
 }
 
 type VC struct {
@@ -117,6 +119,7 @@ type Exec struct {
 	havocked bool
 	opaque   map[string]bool
 	zeroRow  *Term
+	headRefs []*Term
 }
 
 type Frame struct {
@@ -133,6 +136,7 @@ type Frame struct {
 	entryHeap map[string]*Term
 	extraNames map[string]*Val // e.g. result names when evaluating posts
 	backSeq    int
+	headEnv    map[*loopInfo]*SpecEnv // state at the start of an arbitrary iteration, per loop
 }
 
 type exitPoint struct {
@@ -353,6 +357,10 @@ func (x *Exec) newRef(hint string) *Term {
 	x.vc.Assume(Gt(r, x.top0))
 	for _, a := range x.allocs {
 		x.vc.Assume(Not(App("=", SBool, r, a)))
+	}
+	// values that were live at a loop head (arbitrary iteration) existed before anything allocated later
+	for _, h := range x.headRefs {
+		x.vc.Assume(Not(App("=", SBool, r, h)))
 	}
 	x.allocs = append(x.allocs, r)
 	return r
@@ -762,7 +770,16 @@ func (fr *Frame) cutHead(n *vnode) {
 		if old != nil && (old.P != nil) {
 			bail("phi of pointer places at loop head in %s", fr.fn)
 		}
-		n.defs[phi] = x.freshVal(phi.Comment+"$"+phi.Name(), phi.Type())
+		nv := x.freshVal(phi.Comment+"$"+phi.Name(), phi.Type())
+		n.defs[phi] = nv
+		if nv.T != nil {
+			switch phi.Type().Underlying().(type) {
+			case *types.Slice:
+				x.headRefs = append(x.headRefs, SArr(nv.T))
+			case *types.Pointer, *types.Interface, *types.Map:
+				x.headRefs = append(x.headRefs, nv.T)
+			}
+		}
 	}
 	for _, m := range mods {
 		cur, ok := n.heap[m.comp]
@@ -778,6 +795,10 @@ func (fr *Frame) cutHead(n *vnode) {
 	}
 	// 3. assume invariants
 	fr.assumeInvariants(n)
+	if fr.headEnv == nil {
+		fr.headEnv = map[*loopInfo]*SpecEnv{}
+	}
+	fr.headEnv[n.loop] = fr.specEnv(n, cloneHeap(n.heap))
 }
 
 type modTarget struct {
@@ -813,11 +834,19 @@ func (fr *Frame) checkInvariantsAt(n *vnode, at *vnode, kind string, override ma
 	for i, c := range fr.invariantClauses(li) {
 		env := fr.specEnv(at, at.heap)
 		t := env.evalBool(c.E)
+		if os.Getenv("GOVC_DEBUG") != "" {
+			fmt.Fprintf(os.Stderr, "DEBUG %s %s.%d: %s  =>  %s\n", kind, fr.fn.Name(), i, c.Text, truncate(t.String(), 300))
+		}
 		k := kind
 		if strings.HasPrefix(kind, "inv-pres") {
 			k = "inv-pres"
 		}
-		fr.x.vc.Oblige(k, fmt.Sprintf("%s%s.%d.%d", fr.prefix, kind, li.ordinal, i), at.reach, t, fr.x.pos(li.head.Instrs[0].Pos()), c.Text)
+		ob := fr.x.vc.Oblige(k, fmt.Sprintf("%s%s.%d.%d", fr.prefix, kind, li.ordinal, i), at.reach, t, fr.x.pos(li.head.Instrs[0].Pos()), c.Text)
+		ob.Env = env
+		if strings.HasPrefix(kind, "inv-pres") && fr.headEnv != nil && fr.headEnv[li] != nil {
+			// known-finding input classes of preservation obligations talk about the iteration's start state
+			ob.Env = fr.headEnv[li]
+		}
 	}
 }
 
